@@ -193,6 +193,17 @@ def run(ctx: Ctx):
                 desc = [a.args[1] for a in sc.args[1:] if a.op == "kw" and a.args[0] == "descending"]
                 asc = (not desc) or vg.is_const(desc[0], False)
                 same_sort = nf.strip(idx).op == "sub" and nf.strip(idx).args[0] is sc and vg.is_const(nf.strip(idx).args[1], 1)
+            # the most likely action (last of the ascending order) is kept explicitly: remove[..., -1] = False
+            keep_last = False
+            src0 = nf.strip(src)
+            if src0.op == "store" and vg.is_const(src0.args[-1], False):
+                ix = src0.args[1]
+                comps = list(ix.args) if ix.op == "tuple" else [ix]
+                keep_last = bool(comps) and vg.is_const(comps[-1], -1) and all(c_.op in ("ellipsis", "slice") for c_ in comps[:-1])
+                if keep_last:
+                    src = src0.args[0]
+                    if nf.strip(base) is src0:
+                        base = src
             c = nf.cmpnf(src)
             thr = False
             cum_ok = False
@@ -204,8 +215,9 @@ def run(ctx: Ctx):
                     sm = nf.strip(cums[0].args[0])
                     cum_ok = sm.op == "meth" and sm.args[1] == "softmax" and nf.axis_is(cums[0], -1) and nf.axis_is(sm, -1) and \
                         nf.strip(sm.args[0]).op == "sub" and vg.is_const(nf.strip(sm.args[0]).args[1], 0)
-            ok = vg.is_const(dim, -1) and asc and same_sort and thr and cum_ok and src is base
-            why = (f"ascending sort: {asc}; cumulative softmax of the sorted values on dim -1: {cum_ok}; removes cum <= 1 - top_p (non-strict, last element kept): {thr}; "
+            ok = vg.is_const(dim, -1) and asc and same_sort and thr and cum_ok and (src is base or nf.strip(src) is nf.strip(base)) and keep_last
+            why = (f"ascending sort: {asc}; cumulative softmax of the sorted values on dim -1: {cum_ok}; removes cum <= 1 - top_p: {thr}; the last (most likely) sorted entry is "
+                   f"kept unconditionally -- `remove[..., -1] = False`, so rounding of 1 - top_p cannot empty the support: {keep_last}; "
                    f"scattered back with the indices of the same sort on dim -1: {same_sort and vg.is_const(dim, -1)}")
         ctx.ob("C10.b", "top-p:predicate", ok, fi.loc, why, construct="modify_logits_for_top_p_filtering:predicate")
     selection(ctx)
